@@ -696,7 +696,7 @@ func ruleLexMode(c *Ctx) {
 		}
 		for _, run := range []struct {
 			tok, excl, label string
-			comment         bool
+			comment          bool
 		}{{"SYMBOL", lt.symbolExcl, "symbol", true}, {"METADATA", lt.metaExcl, "metadata", false}} {
 			c.site(1)
 			var missing []string
@@ -1195,7 +1195,9 @@ func ruleClassify(c *Ctx) {
 	}
 	c.site(1)
 	name := fname(fn)
-	cl := firstCall(fn, func(ci ssa.CallInstruction) bool { return strings.HasSuffix(calleeName(ci.Common()), "ASTTypeClassifier.Classify") })
+	cl := firstCall(fn, func(ci ssa.CallInstruction) bool {
+		return strings.HasSuffix(calleeName(ci.Common()), "ASTTypeClassifier.Classify")
+	})
 	cv := firstCall(fn, invokeOf("astconv.Converter", "Convert"))
 	good := cl != nil && cv != nil && dominatesInstr(cl, cv) && c.errorReturned(cl.(*ssa.Call))
 	c.check(good, name, c.pos(fn.Pos()), name, "Classify (error returned) before any conversion", name+": the tree is no longer classified (letters vs numbers) with its error returned before conversion starts: mixed notation is converted instead of refused")
